@@ -1,6 +1,7 @@
 package rules
 
 import (
+	"fmt"
 	"go/token"
 	"go/types"
 	"strings"
@@ -654,12 +655,20 @@ func ruleHTMLToChild(r *core.Reporter) {
 	}
 }
 
-// ruleReadConsume: see the rule's Doc.
+// ruleReadConsume: see the rule's Doc. The configuration package's readers are covered by R-CONFIG-READ-CONSUME (C05).
 func ruleReadConsume(r *core.Reporter) {
+	readConsume(r, func(fn *ssa.Function) bool { return core.FuncPkg(fn) == nil || core.FuncPkg(fn).Path() != pkgConfig })
+}
+
+func ruleConfigReadConsume(r *core.Reporter) {
+	readConsume(r, func(fn *ssa.Function) bool { return core.FuncPkg(fn) != nil && core.FuncPkg(fn).Path() == pkgConfig })
+}
+
+func readConsume(r *core.Reporter, inScope func(*ssa.Function) bool) {
 	p := r.P
 	sites := 0
 	for _, fn := range p.ModFuncs {
-		if !core.InModule(fn) {
+		if !core.InModule(fn) || !inScope(fn) {
 			continue
 		}
 		allInstrs(fn, func(in ssa.Instruction) {
@@ -675,9 +684,13 @@ func ruleReadConsume(r *core.Reporter) {
 					n = ex
 				}
 			}
-			key := core.FuncName(fn) + "/Read"
+			what := "Read"
+			if sc := c.Call.StaticCallee(); sc != nil && sc.Name() != "Read" {
+				what = sc.Name()
+			}
+			key := core.FuncName(fn) + "/" + what
 			if n == nil {
-				r.Violated(key, p.InstrPos(c), "the byte count of Read is discarded: data returned together with an error (io.EOF) is lost")
+				r.Violated(key, p.InstrPos(c), "the data result of %s is discarded: what is returned together with an error (io.EOF) is lost", what)
 				return
 			}
 			isN := func(v ssa.Value) bool {
@@ -697,6 +710,15 @@ func ruleReadConsume(r *core.Reporter) {
 				return false
 			}
 			looksAtN := func(x ssa.Instruction) bool {
+				if what != "Read" {
+					// ReadString/ReadBytes: any use of the returned data
+					for _, op := range x.Operands(nil) {
+						if *op == n {
+							return true
+						}
+					}
+					return false
+				}
 				switch x := x.(type) {
 				case *ssa.If:
 					if b, ok := x.Cond.(*ssa.BinOp); ok && (isN(b.X) || isN(b.Y)) {
@@ -714,20 +736,41 @@ func ruleReadConsume(r *core.Reporter) {
 					rerr = ex
 				}
 			}
-			target := func(x ssa.Instruction) bool {
-				if ret, ok := x.(*ssa.Return); ok && rerr != nil {
-					for _, res := range ret.Results {
-						if res == rerr {
-							return false
+			// a return that hands back the read error itself fails the whole operation: nothing is silently truncated
+			res := ir.Reach([]ir.Pt{ir.After(c)}, ir.Opts{Stop: looksAtN})
+			var at ssa.Instruction
+			if res.Reached[c] || res.Stopped[c] {
+				at = c
+			}
+			for _, ret := range ir.Returns(fn) {
+				if !res.Reached[ret] {
+					continue
+				}
+				silent := len(res.RetTuples[ret]) == 0
+				for _, tuple := range res.RetTuples[ret] {
+					own := false
+					for _, v := range tuple {
+						if rerr != nil && v == rerr {
+							own = true
 						}
 					}
+					if !own {
+						silent = true
+					}
 				}
-				return x == ssa.Instruction(c) || ir.IsExit(x)
+				if silent && at == nil {
+					at = ret
+				}
 			}
-			if at, bad := ir.PathExists([]ir.Pt{ir.After(c)}, ir.Opts{Stop: looksAtN}, target); bad {
-				r.Violated(key, p.InstrPos(at), "after Read at %s a path reaches %s without looking at the byte count: bytes returned together with io.EOF / an error are dropped (truncated body, references in the tail are never extracted)", p.InstrPos(c), p.InstrPos(at))
+			for in := range res.Reached {
+				if _, isPanic := in.(*ssa.Panic); isPanic {
+					_ = in // a panic is not a silent truncation
+				}
+			}
+			if at != nil {
+				r.Violated(key, p.InstrPos(at), "after %s at %s a path reaches %s without looking at the returned data: what comes back together with io.EOF / an error is dropped (the tail of the body, the last line of a file without a trailing newline)", what, p.InstrPos(c), p.InstrPos(at))
 			} else {
-				r.Held(key, 1, "every path from Read to the next Read / return first tests n or uses buf[:n]")
+				r.Held(key, 1, "every path from %s to the next call / return first looks at the returned data", what)
 			}
 		})
 	}
@@ -743,6 +786,9 @@ func isReaderRead(c *ssa.Call) bool {
 		f = c.Call.Method
 	} else if sc := c.Call.StaticCallee(); sc != nil {
 		f, _ = sc.Object().(*types.Func)
+	}
+	if f != nil && f.Pkg() != nil && f.Pkg().Path() == "bufio" && (f.Name() == "ReadString" || f.Name() == "ReadBytes") {
+		return true // documented to return the data read before the error together with the error
 	}
 	if f == nil || f.Name() != "Read" {
 		return false
@@ -822,5 +868,148 @@ func ruleDepthKind(r *core.Reporter) {
 	}
 	if bad == 0 {
 		r.Held("Item.GetDepth/only-logged", calls, "no result of GetDepth() is compared or returned by another function")
+	}
+}
+
+func init() {
+	register(&core.Rule{ID: "R-NORMALIZE-PARENT", Props: []string{"C07", "C09"}, Doc: "every NormalizeURL call in the preprocessor resolves an item's reference against that item's own parent: the second argument is nil, or `X.GetParent().GetURL()` for the very X whose `X.GetURL()` is the first argument (through phis) — relative references of a page reached through a redirect (or of an asset of an asset) are relative to the page they were found on, not to the seed", Run: ruleNormalizeParent})
+}
+
+func ruleNormalizeParent(r *core.Reporter) {
+	p := r.P
+	norm := p.Func(rel(pkgPre), "NormalizeURL")
+	if norm == nil {
+		r.Undecided("NormalizeURL", "", "anchor not found")
+		return
+	}
+	sites := 0
+	for _, fn := range p.FuncsInPkg(rel(pkgPre)) {
+		for _, f := range withAnon(fn) {
+			f := f
+			allInstrs(f, func(in ssa.Instruction) {
+				cc := ir.AsCall(in)
+				if cc == nil || cc.StaticCallee() != norm || len(cc.Args) != 2 || f == norm {
+					return
+				}
+				sites++
+				r.Analysed(f)
+				key := fmt.Sprintf("%s/NormalizeURL#%d", core.FuncName(f), sites)
+				// first argument: X.GetURL()
+				c0, ok := ir.Strip(cc.Args[0]).(*ssa.Call)
+				if !ok || !ir.IsCallTo(c0, "(*"+pkgModels+".Item).GetURL") {
+					r.Undecided(key, p.InstrPos(in), "the URL being normalised is not an item's GetURL() (%s)", ir.Path(cc.Args[0]))
+					return
+				}
+				want := ir.Path(c0.Call.Args[0]) + ".GetParent().GetURL()"
+				var leaves []ssa.Value
+				phiLeaves(ir.Strip(cc.Args[1]), map[ssa.Value]bool{}, &leaves)
+				for _, l := range leaves {
+					if ir.IsNilConst(l) {
+						continue
+					}
+					if got := ir.Path(l); got != want {
+						r.Violated(key, p.InstrPos(in), "the reference %s is resolved against %s, not against its own parent (%s): on a page reached through a redirect, or for an asset of an asset, document-relative references end up under the wrong directory or host", ir.Path(cc.Args[0]), got, want)
+						return
+					}
+				}
+				r.Held(key, 1, "base is nil or the item's own parent")
+			})
+		}
+	}
+	if sites == 0 {
+		r.Undecided("preprocessor/NormalizeURL-calls", "", "NormalizeURL is not called from the preprocessor package")
+	}
+}
+
+func init() {
+	register(&core.Rule{ID: "R-DISPATCH-BEFORE-HTML", Props: []string{"C07", "C19"}, Doc: "extractAssets / extractOutlinks try the generic extractors in a fixed order with HTML near the end; every extractor.Is* predicate consulted before extractor.IsHTML must look at what the document is — the Content-Type header, the sniffed MIME type or the body — not only at who served it: a predicate that answers from the Server header (or the URL) alone swallows ordinary HTML pages of that origin, their anchors never become outlinks and their requisites never become assets", Run: ruleDispatchBeforeHTML})
+}
+
+func ruleDispatchBeforeHTML(r *core.Reporter) {
+	p := r.P
+	looksAtDocument := func(fn *ssa.Function) bool {
+		seen := map[*ssa.Function]bool{}
+		found := false
+		var walk func(f *ssa.Function, d int)
+		walk = func(f *ssa.Function, d int) {
+			if f == nil || seen[f] || d > 2 || found {
+				return
+			}
+			seen[f] = true
+			allInstrs(f, func(in ssa.Instruction) {
+				cc := ir.AsCall(in)
+				if cc == nil {
+					return
+				}
+				switch {
+				case ir.IsCallTo(in, "(net/http.Header).Get") && len(cc.Args) == 2:
+					if s, ok := ir.ConstString(cc.Args[1]); ok && strings.EqualFold(s, "Content-Type") {
+						found = true
+					}
+				case ir.IsCallTo(in, "(*"+pkgModels+".URL).GetMIMEType", "(*"+pkgModels+".URL).GetBody", "(*"+pkgModels+".URL).GetDocument"):
+					found = true
+				default:
+					if callee := cc.StaticCallee(); callee != nil && core.InModule(callee) {
+						walk(callee, d+1)
+					}
+				}
+			})
+		}
+		walk(fn, 0)
+		return found
+	}
+	for _, nm := range []string{"extractAssets", "extractOutlinks"} {
+		fn := p.Func(rel(pkgPost), nm)
+		if fn == nil {
+			r.Undecided("postprocessor."+nm, "", "dispatch function not found")
+			continue
+		}
+		r.Analysed(fn)
+		var html ssa.Instruction
+		allInstrs(fn, func(in ssa.Instruction) {
+			if ir.IsCallTo(in, pkgExtractor+".IsHTML") {
+				html = in
+			}
+		})
+		if html == nil {
+			r.Violated(nm+"/html-arm", fnPos(p, fn), "%s no longer has an HTML arm (extractor.IsHTML is not consulted)", nm)
+			continue
+		}
+		n := 0
+		allInstrs(fn, func(in ssa.Instruction) {
+			cc := ir.AsCall(in)
+			if cc == nil || in == html {
+				return
+			}
+			callee := cc.StaticCallee()
+			if callee == nil || callee.Pkg == nil || callee.Pkg.Pkg.Path() != pkgExtractor || !strings.HasPrefix(callee.Name(), "Is") {
+				return
+			}
+			before := in.Block().Dominates(html.Block()) && in.Block() != html.Block()
+			if in.Block() == html.Block() {
+				for _, x := range in.Block().Instrs {
+					if x == in {
+						before = true
+						break
+					}
+					if x == html {
+						break
+					}
+				}
+			}
+			if !before {
+				return
+			}
+			n++
+			key := nm + "/" + callee.Name()
+			if looksAtDocument(callee) {
+				r.Held(key, 1, "consulted before IsHTML; decides on the content type / MIME / body")
+			} else {
+				r.Violated(key, p.InstrPos(in), "extractor.%s is consulted before extractor.IsHTML in %s but does not look at the Content-Type header, the sniffed MIME type or the body: an ordinary HTML page for which it answers true never reaches the HTML extractor (no outlinks, no requisites)", callee.Name(), nm)
+			}
+		})
+		if n == 0 {
+			r.Held(nm+"/html-arm", 0, "no generic predicate is consulted before IsHTML")
+		}
 	}
 }
